@@ -39,7 +39,7 @@ from vlib.run import Distinct, Run, Samples
 TAKE = 64
 STRESS_TIMEOUT = 420     # s per helper invocation; only ever yields "inconclusive"
 TSAN_TIMEOUT = 600
-MIRI_TIMEOUT = {"quick": 1500, "thorough": 3000}
+MIRI_TIMEOUT = {"quick": 1500, "thorough": 4200}
 TSAN_LOG_CAP = 1 << 20   # bytes of report text after which an instrumented run is stopped (it has shown enough)
 SCRATCH = None
 
